@@ -64,7 +64,11 @@ func (d *DateTime) UnmarshalJSON(bytes []byte) error {
 	if err != nil {
 		datetime, err = time.ParseInLocation("2006-01-02 15:04:05 MST", s, time.Local)
 		if err != nil {
-			return err
+			// ... time zones without a name are formatted as a numeric offset, which may include minutes (e.g. +0530)
+			datetime, err = time.ParseInLocation("2006-01-02 15:04:05 -0700", s, time.Local)
+			if err != nil {
+				return err
+			}
 		}
 	}
 
